@@ -235,12 +235,80 @@ type seg struct {
 	v    string
 }
 
+// actTracker is an AsyncContextTracker that hands out fresh integer contexts and checks the protocol of func.go:37-53
+// as far as the code implements it (model: lean/GojaModel/C10/Act.lean): Resumed/Exited strictly alternate, a resumed
+// context was grabbed before and is resumed at most once.  It never influences the run.
+type actTracker struct {
+	log     []string
+	n       int
+	open    bool
+	resumed map[int]bool
+	bad     []string
+}
+
+func (t *actTracker) Grab() interface{} {
+	t.n++
+	t.log = append(t.log, "G"+strconv.Itoa(t.n))
+	return t.n
+}
+
+func (t *actTracker) Resumed(o interface{}) {
+	c, ok := o.(int)
+	t.log = append(t.log, fmt.Sprintf("R%v", o))
+	switch {
+	case !ok:
+		t.bad = append(t.bad, "resumed-with-foreign-context")
+	case t.open:
+		t.bad = append(t.bad, "nested-resumed")
+	case c < 1 || c > t.n:
+		t.bad = append(t.bad, "resumed-ungrabbed-context")
+	case t.resumed[c]:
+		t.bad = append(t.bad, "context-resumed-twice")
+	}
+	if ok {
+		t.resumed[c] = true
+	}
+	t.open = true
+}
+
+func (t *actTracker) Exited() {
+	t.log = append(t.log, "X")
+	if !t.open {
+		t.bad = append(t.bad, "exited-while-closed")
+	}
+	t.open = false
+}
+
 type trackEntry struct {
 	p  *goja.Promise
 	op goja.PromiseRejectionOperation
 }
 
 func runCase(line string) string {
+	actOnly := false
+	if strings.HasPrefix(line, "ACT ") { // probe: answer with the AsyncContextTracker call log only
+		actOnly = true
+		line = line[4:]
+	}
+	// "GINT <n>:<us> <program>": the first run is interrupted from ANOTHER goroutine, which is released when the script
+	// logs its n-th event (n = 0: when it starts executing); the script then idles about <us> microseconds inside that hook.
+	gintUS, gintN := -1, 0
+	if strings.HasPrefix(line, "GINT ") {
+		rest := line[5:]
+		if i := strings.IndexByte(rest, ' '); i > 0 {
+			if j := strings.IndexByte(rest[:i], ':'); j > 0 {
+				n, err1 := strconv.Atoi(rest[:j])
+				us, err2 := strconv.Atoi(rest[j+1 : i])
+				if err1 == nil && err2 == nil && n >= 0 && us >= 0 {
+					gintN, gintUS = n, us
+					line = rest[i+1:]
+				}
+			}
+		}
+		if gintUS < 0 {
+			return "PARSE-ERROR"
+		}
+	}
 	p := &parser{}
 	var defs strings.Builder
 	var segs []seg
@@ -315,6 +383,8 @@ func runCase(line string) string {
 	rt.SetPromiseRejectionTracker(func(pr *goja.Promise, op goja.PromiseRejectionOperation) {
 		tracker = append(tracker, trackEntry{pr, op})
 	})
+	act := &actTracker{resumed: map[int]bool{}}
+	rt.SetAsyncContextTracker(act)
 	rt.Set("INT", func() { rt.Interrupt("int") })
 	if _, err := rt.RunString(prelude + defs.String()); err != nil {
 		return "SETUP-ERROR " + common.OneLine(err.Error())
@@ -346,6 +416,51 @@ func runCase(line string) string {
 		errKind := "none"
 		switch s.kind {
 		case "run":
+			if gintUS >= 0 {
+				done := make(chan struct{})
+				d := time.Duration(gintUS) * time.Microsecond
+				gintUS = -1 // first run only
+				goCh := make(chan struct{})
+				// the script itself releases the second goroutine when it starts executing (after parsing/compiling),
+				// so that the delay is measured from the first instruction
+				rt.Set("GSTART", func() {
+					if goCh != nil {
+						close(goCh)
+						goCh = nil
+						// give the other goroutine a moment to be scheduled; the interrupt then lands at an
+						// arbitrary point of the instructions that follow (busy wait: Sleep is far too coarse)
+						t0 := time.Now()
+					wait:
+						for time.Since(t0) < d {
+							select {
+							case <-done: // Interrupt() has been called: it lands at the next instruction
+								break wait
+							default:
+							}
+						}
+					}
+				})
+				go func(ch chan struct{}) {
+					<-ch
+					rt.Interrupt("goroutine")
+					close(done)
+				}(goCh)
+				pre := "GSTART();"
+				if gintN > 0 { // release at the n-th event: wrap the event log (takeE is redefined accordingly)
+					pre = fmt.Sprintf("var GN=%d;E.push=function(x){Array.prototype.push.call(this,x);if(this.length===GN)GSTART();};", gintN)
+				}
+				_, err := rt.RunString(pre + s.js)
+				if goCh != nil { // the script never started (cannot happen for the generated programs)
+					close(goCh)
+					goCh = nil
+				}
+				<-done
+				errKind = classify(err)
+				if errKind != "int" {
+					rt.ClearInterrupt() // the interrupt arrived after the run had returned
+				}
+				break
+			}
 			_, err := rt.RunString(s.js)
 			errKind = classify(err)
 		case "gnew":
@@ -374,6 +489,9 @@ func runCase(line string) string {
 		depth := rt.VerifC10CallDepth()
 		if errKind == "int" {
 			rt.ClearInterrupt()
+			act.open = false // an interrupt abandons the open Resumed (Exited is not deferred)
+		} else if act.open {
+			act.bad = append(act.bad, "open-after-outermost-return")
 		}
 		ev, err := takeE(goja.Undefined())
 		evs := ""
@@ -440,7 +558,14 @@ func runCase(line string) string {
 	if q := rt.VerifC10JobQueueLen(); q != 0 {
 		sts = append(sts, fmt.Sprintf("QUEUE-NOT-EMPTY:%d", q))
 	}
-	return strings.Join(out, " # ") + " # st=" + strings.Join(sts, ",")
+	if actOnly {
+		return "act=" + strings.Join(act.log, ",")
+	}
+	res := strings.Join(out, " # ") + " # st=" + strings.Join(sts, ",")
+	if len(act.bad) > 0 {
+		res += " # ACT-VIOLATION:" + strings.Join(act.bad, ",") + ":" + strings.Join(act.log, ",")
+	}
+	return res
 }
 
 // deadline for one case (a case takes well under a millisecond; the limit only catches a runtime that no longer
